@@ -48,12 +48,25 @@ def _idx(rnd, n):
     return rnd.randint(0, max(n - 1, 0))
 
 
+_BUDGET = [40]          # very long shapes per generated file (reset by the generators): they dominate the log size
+
+
 def _shape(rnd, maxdim, large_share=0.25):
     """mostly small; one case in four has a LONG dimension (up to 130) and hundreds to thousands of cells, because
     size-gated code paths (fast paths above some length, chunked loops) are invisible on small shapes"""
     t = rnd.random()
     if t >= large_share:
         return rnd.randint(1, maxdim), rnd.randint(1, maxdim)
+    if large_share > 0 and t < 0.012 and _BUDGET[0] > 0:
+        _BUDGET[0] -= 1
+        # VERY long and thin: one dimension of 131 .. 9000 (often at / next to a power of two or a round block size), the
+        # other 2 .. 4 - block-wise loops over a line (4096-element blocks, 64-row chunks) only show on such shapes
+        if rnd.random() < 0.5:
+            a = rnd.choice([v for k in range(8, 14) for v in (2 ** k - 1, 2 ** k, 2 ** k + 1, 2 ** k + 2 ** (k - 2) + 5)])
+        else:
+            a = rnd.randint(131, 9000)
+        b = rnd.randint(2, 4)
+        return (a, b) if rnd.random() < 0.5 else (b, a)
     a = rnd.randint(13, 130)
     b = rnd.randint(1, max(1, min(40, 2600 // a)))
     return (a, b) if rnd.random() < 0.5 else (b, a)
@@ -70,6 +83,7 @@ def _divisor_mid(rnd, n):
 
 def acc_cases(seed, n, maxdim, groups, path, large_share=0.25):
     rnd = random.Random(seed)
+    _BUDGET[0] = 40
     with open(path, "w") as f:
         made = 0
         while made < n:
@@ -177,7 +191,7 @@ def acc_cases(seed, n, maxdim, groups, path, large_share=0.25):
                 # give every cell a random key so that the key line has ties
                 ids = [3 * (i + 1) + rnd.randint(0, 2) for i in range(nc * nr)]
                 # structured key lines (sorted, reversed, sorted prefix + one appended, nearly sorted, all equal)
-                pat = rnd.randint(0, 7)
+                pat = rnd.randint(0, 9)
                 if pat >= 3 and line < nlines:
                     a0 = [0, 0]
                     for w in stack:
@@ -190,6 +204,14 @@ def acc_cases(seed, n, maxdim, groups, path, large_share=0.25):
                         for _ in range(rnd.randint(1, 3)):
                             i1, i2 = rnd.randrange(kn), rnd.randrange(kn); keys[i1], keys[i2] = keys[i2], keys[i1]
                     elif pat == 7: keys = [1] * kn
+                    elif pat >= 8 and kn:
+                        # a rotation of a sorted line (what translate leaves behind); pat 9: cut inside a run of equal keys
+                        k0 = rnd.randrange(kn)
+                        if pat == 9:
+                            keys = [(i * 5) // kn for i in range(kn)]
+                            keys = [0 if v == 4 else v for v in keys]     # the last run equals the first
+                            k0 = 0
+                        keys = keys[k0:] + keys[:k0]
                     for i in range(kn):
                         x, y = (a0[0] + i, a0[1] + line) if by == "row" else (a0[0] + line, a0[1] + i)
                         ids[y * nc + x] = ids[y * nc + x] // 3 * 3 + keys[i]
@@ -199,12 +221,40 @@ def acc_cases(seed, n, maxdim, groups, path, large_share=0.25):
                     "calls": [{"op": op, "a": a, "x": None}]}
             f.write(json.dumps(case) + "\n")
             made += 1
+        if "move" in groups and large_share > 0:
+            made += translate_lattice(rnd, f)
+    return made
+
+
+def translate_lattice(rnd, f):
+    """translate_with_wrap permutes rows along gcd(R, mr) cycles of length R / gcd and rotates columns by mc: the
+    parameters that matter are (gcd, cycle length, mc mod C), not the cell values.  On a few tall shapes take EVERY
+    row mid whose gcd with R is large (many cycles: where chunked / batched cycle walks live) with every column mid,
+    on owned arrays and through windows (1 case in 3)."""
+    from math import gcd
+    n = 0
+    talls = [132, 256, 300] + [rnd.choice([192, 264, 396, 512, 528, 600])]
+    for R in talls:
+        mids = [m for m in range(1, R) if gcd(R, m) >= 32]
+        for C in rnd.sample([1, 2, 3, 4, 6], 3):
+            for mr in mids:
+                for mc in range(0, C + 1):
+                    if rnd.random() < 0.5 and not (mc > 0 and ((R // gcd(R, mr)) * mc) % C == 0):
+                        continue                                      # thin the generic ones, keep the resonant ones
+                    windowed = rnd.random() < 0.33
+                    nc, nr = (C + 2, R + 2) if windowed else (C, R)
+                    stack = [{"k": "m", "s": [1, 1], "e": [C + 1, R + 1]}] if windowed else []
+                    case = {"fam": "acc", "root": {"kind": "owned", "nc": nc, "nr": nr, "ids": [3 * (i + 1) for i in range(nc * nr)]},
+                            "stack": stack, "calls": [{"op": "translate", "a": {"mc": mc, "mr": mr}, "x": None}]}
+                    f.write(json.dumps(case) + "\n")
+                    n += 1
     return n
 
 
 def iter_cases(seed, n, maxdim, kinds, path, large_share=0.3):
     """random call sequences on one iterator; shapes skewed towards long rows / columns"""
     rnd = random.Random(seed)
+    _BUDGET[0] = 40
     with open(path, "w") as f:
         for _ in range(n):
             nc, nr = _shape(rnd, maxdim, large_share)
